@@ -1,11 +1,11 @@
 #!/usr/bin/env python3
-"""(Re)write coq/_CoqProject from the tree: Lib, Gen (from rs2v_targets.json), Model, Proof, Props, Corr."""
-import json, os
+"""(Re)write coq/_CoqProject from the tree: Lib, Gen (from rs2v.d/*.json), Model, Proof, Props, Corr."""
+import glob, json, os
 here = os.path.dirname(os.path.abspath(__file__))
 coq = os.path.join(here, '..', 'coq')
 lines = ['-Q . TV',
          '-arg -w -arg -notation-overridden,-deprecated-hint-without-locality,-deprecated-instance-without-locality,-deprecated-syntactic-definition']
-targets = json.load(open(os.path.join(here, 'rs2v_targets.json')))
+targets = {'modules': [json.load(open(p)) for p in sorted(glob.glob(os.path.join(here, 'rs2v.d', '*.json')))]}
 files = []
 for d in ('Lib', 'Model', 'Proof', 'Props', 'Corr'):
     p = os.path.join(coq, d)
